@@ -535,7 +535,6 @@ func runMutantChild(file, repo, verif string) int {
 	return emit(mutantResult{ID: m.ID, Status: "survived", Detail: "no rule of " + m.Property + " reported " + m.Note})
 }
 
-
 // mutantOverlay builds the file overlay a mutant describes (patch and/or find/replace edits).
 func mutantOverlay(m mutant, repo, verif string) (overlay map[string][]byte, status, detail string) {
 	type edit struct{ File, Find, Replace string }
